@@ -24,56 +24,99 @@ from . import scope_gen as G
 
 RULE = ("templates: statement trees of the C03 generator (all constructs) and text templates built from multi-target "
         "assignments, stores in if-branches, from-imports, macros using varargs / kwargs / caller, filter and test "
-        "chains, includes / scoped blocks inside loops, tuple assignments to several namespace objects, over a pool of 14 "
-        "identifiers; each compiled in sync mode and half of them also with the async / sandboxed / native / "
+        "chains, includes / scoped blocks inside loops, tuple assignments to several namespace objects, over a pool of 18 "
+        "identifiers (4 of them non-ASCII); round 7: sources over the extended C03 syntax and every template of the "
+        "shared generator's template sets; 14 environment modes; each compiled in sync mode and half of them also with the async / sandboxed / native / "
         "async+sandboxed code generators, under every hash seed; distinct = (mode, template source); non-trivial = the generated source contains a multi-name update "
         "(context.vars.update / exported_vars.update / _loop_vars.update / _block_vars.update), at least two "
         "filter/test dependency blocks, or a derived context with at least two stores.")
 
-CHILD = r"""
-import sys, json, hashlib
+ENVS_PY = r"""
 import jinja2, jinja2.sandbox, jinja2.nativetypes
 EXT = ["jinja2.ext.loopcontrols", "jinja2.ext.do", "jinja2.ext.i18n", "jinja2.ext.debug"]
-ENVS = {"sync": jinja2.Environment(extensions=EXT),
-        "async": jinja2.Environment(extensions=EXT, enable_async=True),
-        "sandbox": jinja2.sandbox.SandboxedEnvironment(extensions=EXT),
-        "native": jinja2.nativetypes.NativeEnvironment(extensions=EXT),
-        "async_sandbox": jinja2.sandbox.SandboxedEnvironment(extensions=EXT, enable_async=True)}
+DELIMS = dict(block_start_string="<%", block_end_string="%>", variable_start_string="${", variable_end_string="}$",
+              comment_start_string="<#", comment_end_string="#>")
+MK = {"sync": lambda: jinja2.Environment(extensions=EXT),
+      "async": lambda: jinja2.Environment(extensions=EXT, enable_async=True),
+      "sandbox": lambda: jinja2.sandbox.SandboxedEnvironment(extensions=EXT),
+      "native": lambda: jinja2.nativetypes.NativeEnvironment(extensions=EXT),
+      "async_sandbox": lambda: jinja2.sandbox.SandboxedEnvironment(extensions=EXT, enable_async=True),
+      "unoptimized": lambda: jinja2.Environment(extensions=EXT, optimized=False),
+      "autoescape": lambda: jinja2.Environment(extensions=EXT, autoescape=True),
+      "autoescape_select": lambda: jinja2.Environment(extensions=EXT, autoescape=jinja2.select_autoescape(default_for_string=True)),
+      "immutable": lambda: jinja2.sandbox.ImmutableSandboxedEnvironment(extensions=EXT),
+      "overlay": lambda: jinja2.Environment(extensions=EXT).overlay(optimized=False, trim_blocks=True),
+      "delims": lambda: jinja2.Environment(extensions=EXT, **DELIMS),
+      "named": lambda: jinja2.Environment(extensions=EXT),
+      "defer_init": lambda: jinja2.Environment(extensions=EXT),
+      "newstyle": lambda: jinja2.Environment(extensions=EXT)}
+def mk(mode):
+    env = MK[mode]()
+    if mode == "newstyle":
+        env.install_null_translations(newstyle=True)
+    return env
+def comp(env, mode, src):
+    if mode == "delims":
+        src = src.replace("{%", "<%").replace("%}", "%>").replace("{{", "${").replace("}}", "}$")
+    if mode == "named":
+        return env.compile(src, name="dir/t.html", filename="/x/dir/t.html", raw=True)
+    if mode == "defer_init":
+        return env.compile(src, raw=True, defer_init=True)
+    return env.compile(src, raw=True)
+"""
+
+CHILD = ENVS_PY + r"""
+import sys, json, hashlib
+ENVS = {}
 out = []
-for mode, src in json.load(sys.stdin):
+items = json.load(sys.stdin)
+later = []
+for i, (mode, src) in enumerate(items):
+    if mode not in ENVS:
+        ENVS[mode] = mk(mode)
     env = ENVS[mode]
     try:
-        code = env.compile(src, raw=True)
-        code2 = env.compile(src, raw=True)
-        if code != code2:
-            out.append(["DIFF-IN-PROCESS", code])
-            continue
+        code = comp(env, mode, src)
+        if i % 2 == 0:
+            # the same environment again, immediately
+            if comp(env, mode, src) != code:
+                out.append(["DIFF-IN-PROCESS", code])
+                continue
+        else:
+            later.append(i)
         flags = int("vars.update(" in code or "exported_vars.update(" in code or "_vars.update(" in code) \
             + 2 * int(code.count("environment.filters[") + code.count("environment.tests[") >= 2) \
             + 4 * int(".derived({" in code and code.split(".derived({")[1].split("}")[0].count(":") >= 2)
         out.append([hashlib.sha256(code.encode()).hexdigest(), flags])
     except Exception as e:
         out.append(["ERR:" + type(e).__name__, 0])
+# history: after everything else was compiled on the long-lived environments, compile again — in reverse
+# order, alternately on the long-lived environment and on a fresh one — and compare with the first result
+for n, i in enumerate(reversed(later)):
+    mode, src = items[i]
+    if out[i][0].startswith("ERR"):
+        continue
+    env = ENVS[mode] if n % 2 == 0 else mk(mode)
+    try:
+        code = comp(env, mode, src)
+        if hashlib.sha256(code.encode()).hexdigest() != out[i][0]:
+            out[i] = ["DIFF-IN-PROCESS", code]
+    except Exception as e:
+        out[i] = ["DIFF-IN-PROCESS", "ERR:" + type(e).__name__]
 json.dump(out, sys.stdout)
 """
 
-CHILD_SRC = r"""
+CHILD_SRC = ENVS_PY + r"""
 import sys, json
-import jinja2, jinja2.sandbox, jinja2.nativetypes
-EXT = ["jinja2.ext.loopcontrols", "jinja2.ext.do", "jinja2.ext.i18n", "jinja2.ext.debug"]
 mode, src = json.load(sys.stdin)
-env = {"sync": lambda: jinja2.Environment(extensions=EXT),
-       "async": lambda: jinja2.Environment(extensions=EXT, enable_async=True),
-       "sandbox": lambda: jinja2.sandbox.SandboxedEnvironment(extensions=EXT),
-       "native": lambda: jinja2.nativetypes.NativeEnvironment(extensions=EXT),
-       "async_sandbox": lambda: jinja2.sandbox.SandboxedEnvironment(extensions=EXT, enable_async=True)}[mode]()
 try:
-    print(env.compile(src, raw=True))
+    print(comp(mk(mode), mode, src))
 except Exception as e:
     print("ERR:" + type(e).__name__)
 """
 
-IDS = ["alpha", "b", "cc", "delta", "e1", "foo", "g", "hh", "item", "jj", "k", "lst", "mm", "n0"]
+IDS = ["alpha", "b", "cc", "delta", "e1", "foo", "g", "hh", "item", "jj", "k", "lst", "mm", "n0",
+       "größe", "naïve", "жук", "ﬁn"]        # identifiers are Unicode (XID), not only ASCII
 FILTERS = ["upper", "lower", "trim", "title", "length", "string", "first", "last", "capitalize", "list", "sort", "reverse"]
 TESTS = ["defined", "odd", "even", "none", "string", "number", "iterable", "mapping", "lower", "upper"]
 
@@ -178,7 +221,14 @@ def source_under_seed(item, sd):
     return out
 
 
-MODES = ["sync", "async", "sandbox", "native", "async_sandbox"]
+MODES = ["sync", "async", "sandbox", "native", "async_sandbox", "unoptimized", "autoescape", "autoescape_select",
+         "immutable", "overlay", "delims", "named", "defer_init", "newstyle"]
+EXCLUDED_AXES = {
+    "line statements / whitespace control": "lexer options change the token stream, not the code generator; a sample (trim_blocks) rides on the overlay mode",
+    "bytecode cache": "stores marshal.dumps(code object); its bytes carry interpreter reference flags and are not the generated source the statement is about",
+    "loaders": "compile() does not consult the loader; the template name reaches the generated code only through name / filename (mode named)",
+    "Template(...) constructor / compile_expression": "both go through Environment.compile of an environment with the same options; the generated source is not reachable (only the code object)",
+}
 
 
 def judge(ctx, srcs, seeds, kind):
@@ -241,10 +291,10 @@ def run(ctx):
     seeds = [0, 1, 7, 42, 99, 123, 1000, 2024, 31337, 65535, 5, 11, 13, 17, 19, 23][:nseeds]
     rng = ctx.rng
     tg = TextGen(rng)
-    texts = [tg.template() for _ in range(ctx.size(700, 3000))]
+    texts = [tg.template() for _ in range(ctx.size(550, 2600))]
     trees = []
-    for i in range(ctx.size(500, 2500)):
-        g = G.SGen(rng, size=rng.randint(4, ctx.size(12, 25)), pool=["a", "b", "c", "n", "zeta", "q9"])
+    for i in range(ctx.size(400, 2000)):
+        g = G.SGen(rng, size=rng.randint(4, ctx.size(12, 25)), pool=["a", "b", "c", "n", "zeta", "q9", "цена"])
         trees.append(G.p_src(g.program()))
     # every template in sync mode; every 2nd also in one of the other code-generation modes
     # (async, sandboxed, native, async + sandboxed); the first ones in all modes
@@ -252,13 +302,28 @@ def run(ctx):
         out = []
         for i, src in enumerate(srcs):
             out.append(("sync", src))
-            if i < 40:
+            if i < ctx.size(14, 28):
                 out += [(m, src) for m in MODES[1:]]
             elif i % 2 == 0:
-                out.append((MODES[1 + (i // 2) % 4], src))
+                out.append((MODES[1 + (i // 2) % (len(MODES) - 1)], src))
         return out
+    ctx.extra["configurations"] = {"explored": MODES, "excluded": EXCLUDED_AXES}
     judge(ctx, with_modes(texts), seeds, "text")
     judge(ctx, with_modes(trees), seeds, "tree")
+    # round 7: the extended C03 syntax (tuple targets, recursive loops, loop controls, filtered block sets) and
+    # the templates of whole template sets of the shared generator (inheritance, includes, imports, rich expressions)
+    from . import scope_ref as R
+    from .gen_templates import TGen
+    ext = []
+    for i in range(ctx.size(180, 800)):
+        g = R.EGen(rng, size=rng.randint(4, ctx.size(14, 25)), pool=["a", "b", "c", "n", "zeta", "q9", "größe"])
+        ext.append(R.p2_src(g.program()))
+    judge(ctx, with_modes(ext), seeds, "ext")
+    sets = []
+    for i in range(ctx.size(80, 300)):
+        ts, main = TGen(rng, depth=rng.randint(1, 3), names=["a", "b", "c", "x", "y", "zeta", "k2"]).template_set()
+        sets += list(ts.values())
+    judge(ctx, with_modes(sets), seeds, "set")
 
 
 def replay(ctx, data):
